@@ -90,10 +90,19 @@ const (
 	establishedState
 )
 
+// cancelDial cancels an in-flight dial and waits for its result. A dial that
+// succeeded before it noticed the cancellation hands us a connection nobody
+// will use; close it rather than leak it.
+func (f *fsm) cancelDial() {
+	f.cancelDialFn()
+	if dr := <-f.dialResultCh; dr != nil && dr.conn != nil {
+		dr.conn.Close()
+	}
+}
+
 func (f *fsm) cleanup() {
 	if f.cancelDialFn != nil {
-		f.cancelDialFn()
-		<-f.dialResultCh
+		f.cancelDial()
 	}
 	f.cleanupConnAndReader()
 	for _, t := range []*time.Timer{f.connectRetryTimer, f.holdTimer,
@@ -306,8 +315,7 @@ func (f *fsm) connect() fsmState {
 	for {
 		select {
 		case <-f.closeCh:
-			f.cancelDialFn()
-			<-f.dialResultCh
+			f.cancelDial()
 			f.connectRetryTimer.Stop()
 			return disabledState
 		case dr := <-f.dialResultCh:
